@@ -32,15 +32,17 @@ def families(tier):
     fam = {}
     EL = '{"car","pedestrian","unknown"}'
     GL = '{"car","pedestrian","bus","false_positive"}'
-    base = dict(XS="-2..2", YS="{0,1}", ELabels=EL, GLabels=GL, Confs="{30,60,90}", PtsSet="{5}", UuidSet="{FALSE}", AttrSet="{FALSE}",
+    base = dict(XS="-2..2", YS="{0,1}", ELabels=EL, GLabels=GL, Confs="{30,60,90}", PtsSet="{5}", UuidSet="{FALSE}", AttrSet="{0}",
                 MaxE="2", MaxG="2", MaxN="3", LcmN="6")
     # A: x/y boxes, default policy, tight/loose/no pass-fail threshold
     cfgA = cfg_rec(T2, "DEFAULT", "<<>>", fparams(T2, xmax="<<9,9>>", ymax="<<9,9>>", minPts="<<0,0>>"), cd="<<3,3>>", pd="<<5,3>>")
     critA = "{%s, %s}" % (fparams(T2, xmax="<<3,7>>", ymax="<<9,9>>"), fparams(T2, xmax="<<9,9>>", ymax="<<1,1>>"))
-    pfA = "{[targets |-> %s, thr |-> <<3,3>>], [targets |-> %s, thr |-> <<>>], [targets |-> %s, thr |-> <<1,5>>]}" % (T2, T2, T2)
-    fam["A_xy"] = dict(base, CfgSet="{%s}" % cfgA, CritSet=critA, PfSet=pfA, Sample="0" if big else "700")
-    if not big:
-        fam["A_xy"].update(MaxE="2", MaxG="2")
+    pfA = ("{[targets |-> %s, thr |-> <<3,3>>], [targets |-> %s, thr |-> <<>>], [targets |-> %s, thr |-> <<1,5>>], "
+           "[targets |-> <<\"pedestrian\", \"car\">>, thr |-> <<1,5>>], [targets |-> <<\"pedestrian\">>, thr |-> <<3>>]}" % (T2, T2, T2))
+    fam["A_xy"] = dict(base, CfgSet="{%s}" % cfgA, CritSet=critA, PfSet=pfA, Sample="6000" if big else "700")
+    if big:
+        # every frame with at most one estimate and one ground truth (exhaustive)
+        fam["A_1x1_exhaustive"] = dict(base, CfgSet="{%s}" % cfgA, CritSet=critA, PfSet=pfA, MaxE="1", MaxG="1", Sample="0")
     # B: distance rings, allow-unknown, matchable radius
     cfgB = cfg_rec(T2, "ALLOW_UNKNOWN", "<<<<3,2>>,<<5,2>>>>", fparams(T2, dmax="<<9,9>>", dmin="<<1,1>>", minPts="<<0,0>>"), cd="<<5,3>>")
     critB = "{%s, %s}" % (fparams(T2, dmax="<<3,7>>", dmin="<<1,1>>"), fparams(T2, dmax="<<5,5>>", dmin="<<1,1>>"))
@@ -52,7 +54,7 @@ def families(tier):
     critC = "{%s, %s}" % (fparams(T2, xmax="<<9,9>>", ymax="<<9,9>>"), fparams(T2, xmax="<<3,7>>", ymax="<<9,9>>", minPts="<<6,3>>", ign="TRUE"))
     pfC = "{[targets |-> %s, thr |-> <<3,3>>]}" % T2
     fam["C_thresholds"] = dict(base, CfgSet="{%s, %s}" % (cfgC1, cfgC2), CritSet=critC, PfSet=pfC, PtsSet="{2,5,8}", UuidSet="{TRUE,FALSE}",
-                               AttrSet="{TRUE,FALSE}", Confs="{10,20,50,70}", Sample="3000" if big else "600")
+                               AttrSet="{0,1,2}", Confs="{10,20,50,70}", Sample="3000" if big else "600")
     # D: unknown is a target, allow-any policy, three labels
     cfgD = cfg_rec(T3, "ALLOW_ANY", "<<>>", fparams(T3, xmax="<<9,9,9>>", ymax="<<9,9,9>>", minPts="<<0,0,0>>"), cd="<<3,3,3>>", pd="<<3,3,5>>")
     critD = "{%s}" % fparams(T3, xmax="<<3,5,7>>", ymax="<<9,9,9>>")
@@ -70,6 +72,17 @@ def families(tier):
 _MGR = {}
 _TMP = None
 ATTR = "verif_ignored_attr"
+
+
+def attr_kwargs(code, label):
+    """attribute code of Filter.tla -> (attributes list, original label name)"""
+    if code in (1, True):
+        return [ATTR], label
+    if code == 2:
+        return [ATTR + "_extended", "other"], label
+    if code == 3:
+        return ["other"], "%s.%s.x" % (label, ATTR)
+    return [], label
 EGOS = None
 
 
@@ -175,11 +188,16 @@ def render_objects(frame, rendering, ego):
     fr = "map" if rendering == "map" else "base_link"
     ests, gts = [], []
     for i, e in enumerate(frame["ests"]):
-        ests.append(obj3d((e["x"], e["y"], 0), label=e["label"], score=e["conf"] / 100.0, frame=fr, ego=ego, uuid="e%d" % (i + 1), vid=i + 1,
-                          attributes=[ATTR] if e["attr"] else [], points=None))
+        at, nm = attr_kwargs(e["attr"], e["label"])
+        o_ = obj3d((e["x"], e["y"], 0), label=e["label"], score=e["conf"] / 100.0, frame=fr, ego=ego, uuid="e%d" % (i + 1), vid=i + 1, attributes=at, points=None)
+        o_.semantic_label.name = nm
+        ests.append(o_)
     for j, g in enumerate(frame["gts"]):
-        gts.append(obj3d((g["x"], g["y"], 0), label=g["label"], score=1.0, frame=fr, ego=ego, uuid=("in%d" if g["uuid"] else "out%d") % (j + 1),
-                         vid=j + 1, attributes=[ATTR] if g["attr"] else [], points=g["pts"]))
+        at, nm = attr_kwargs(g["attr"], g["label"])
+        o_ = obj3d((g["x"], g["y"], 0), label=g["label"], score=1.0, frame=fr, ego=ego, uuid=("in%d" if g["uuid"] else "out%d") % (j + 1), vid=j + 1, attributes=at,
+                   points=g["pts"])
+        o_.semantic_label.name = nm
+        gts.append(o_)
     return ests, gts
 
 
